@@ -52,3 +52,20 @@ Record valsrc := mkvalsrc {
   vs_cap_offset : Z -> Z;       (* offset into the actual's union in that branch *)
   vs_cap_len_off : Z -> Z; vs_cap_len : Z -> Z   (* memmove lengths of the two branches *)
 }.
+
+(* abstract double arithmetic and libm for the translated double comparisons (C15); see Doubles.v *)
+Inductive ext := ENegInf | EFin (z : Z) | EPosInf | ENan.     (* floor(log10 x) as a double: an integer, an infinity or NaN *)
+Definition ex_add (a b : ext) : ext :=
+  match a, b with
+  | ENan, _ | _, ENan => ENan
+  | EFin x, EFin y => EFin (x + y)
+  | ENegInf, EPosInf | EPosInf, ENegInf => ENan
+  | ENegInf, _ | _, ENegInf => ENegInf
+  | EPosInf, _ | _, EPosInf => EPosInf
+  end.
+Definition ex_neg (a : ext) : ext := match a with ENegInf => EPosInf | EPosInf => ENegInf | EFin z => EFin (- z) | ENan => ENan end.
+Definition ex_sub (a b : ext) : ext := ex_add a (ex_neg b).
+Record fenv (F : Type) := mkfenv { f_sub : F -> F -> F; f_add : F -> F -> F; f_abs : F -> F; f_lt : F -> F -> bool }.
+Arguments f_sub {F}. Arguments f_add {F}. Arguments f_abs {F}. Arguments f_lt {F}.
+Record libm (F : Type) := mklibm { l_flog10 : F -> ext; l_pow10 : ext -> F }.
+Arguments l_flog10 {F}. Arguments l_pow10 {F}.
